@@ -10,6 +10,12 @@
   crate (`not_separated_counterexample`, `not_separated_second_candidate_counterexample`); what survives
   there is `from_local_earliest_sound`.  The harness judges those zones under a distinct message prefix.
 
+  Rule half of the instant specification.  `offAt` decides an instant under a rule by the two rule
+  transitions of its calendar year (the code's and glibc's convention).  `ruleDstSeq`
+  (Spec/ZoneSeqSpec.lean) is the independent transition-sequence reading; `ruleDst_eq_seq` proves the two
+  equal exactly on `OrderStable` rules, `order_flip_characterised` / `order_flip_phantom` say what the
+  per-year convention does where the order flips (finding F30, widened to the lookup by instant).
+
   Model: `Chrono.M.TzL` (Model/TzLookup.lean) mirrors timezone.rs / rule.rs / the glue of unix.rs.
   Specification: `Chrono.Spec.Zone` (Spec/ZoneSpec.lean): proleptic Gregorian day count, POSIX rule
   days, the zone as a step function `ltAt`/`offAt`, `Classifies` (0/1/2 occurrences of a wall-clock
